@@ -109,6 +109,11 @@ def offset_table(t: T, pattern, rule_name, offset_of_index, reachable, folded):
     if not isinstance(tab, list) or len(tab) != 8:
         t.rep.ob(f"E3|{name}|len", False, f"table {name}: expected 8 entries", rule='E3-table')
         return
+    if not all(isinstance(e, tuple) and len(e) == 2 and isinstance(e[1], int) for e in tab):
+        # a table of another shape under the same name (plain offsets, ...): this rule does not apply, the unit is
+        # decided by its E1 contract
+        t.rep.notes.append(f"table {name} is not a table of (function, days) pairs: decided by the E1 contract of the unit alone")
+        return
     for i in reachable:
         fn, off = tab[i]
         want = offset_of_index(i)
